@@ -238,14 +238,21 @@ def copy_repo(dst: Path, profile: str, shims: list[str], shim_dir: Path, mount: 
             f.write_text(txt)
 
 
-def make_ext(dst: Path, repo_copy: Path, profile: str, shims: list[str], shim_dir: Path, harness_dir: Path):
+def make_ext(dst: Path, repo_copy: Path, profile: str, shims: list[str], shim_dir: Path, harness_dir: Path, ext_dir: str = "ext"):
     dst.mkdir(parents=True)
-    shutil.copytree(harness_dir / "ext" / "src", dst / "src")
-    t = (harness_dir / "ext" / "Cargo.toml.in").read_text()
+    shutil.copytree(harness_dir / ext_dir / "src", dst / "src")
+    t = (harness_dir / ext_dir / "Cargo.toml.in").read_text()
     t = t.replace("@REPO@", str(repo_copy)).replace("@PROFILE@", profile_body(profile))
     t = t.replace("@PATCHES@", patches_text(shims, shim_dir))
     (dst / "Cargo.toml").write_text(t)
     shutil.copy(REPO / "Cargo.lock", dst / "Cargo.lock")
+    if ext_dir == "ext1":
+        # C01: the client's UDP reply routing, TEXT extracted from the CURRENT source
+        try:
+            (dst / "src" / "c01_extracted.rs").write_text(extract_udp_maps())
+        except ExtractError as e:
+            (dst / "src" / "c01_extracted.rs").write_text(f"compile_error!({json.dumps('extraction from penguin/src/client/mod.rs failed: ' + str(e))});\n")
+        return
     # C19: the back-off parameters at the client's call site, from the CURRENT source
     cs = extract_backoff_callsite()
     if cs:
@@ -253,6 +260,90 @@ def make_ext(dst: Path, repo_copy: Path, profile: str, shims: list[str], shim_di
             f"pub mod callsite {{ pub const INITIAL_MS: u64 = {cs[0]}; pub const MULT: u32 = {cs[1]}; }}\n")
     else:
         (dst / "src" / "callsite.rs").write_text("compile_error!(\"Backoff::new call site not recognised in penguin/src/client/mod.rs\");\n")
+
+
+class ExtractError(Exception):
+    pass
+
+
+def _balanced_end(src: str, i: int) -> int:
+    """index of the bracket matching src[i] (strings and comments skipped)"""
+    pairs = {"{": "}", "(": ")", "[": "]"}
+    o, c = src[i], pairs[src[i]]
+    d, j, n = 0, i, len(src)
+    while j < n:
+        ch = src[j]
+        if ch == '"':
+            j += 1
+            while j < n and src[j] != '"':
+                j += 2 if src[j] == "\\" else 1
+        elif src.startswith("//", j):
+            j = src.index("\n", j)
+        elif ch == o:
+            d += 1
+        elif ch == c:
+            d -= 1
+            if d == 0:
+                return j
+        j += 1
+    raise ExtractError("unbalanced brackets")
+
+
+def _item(src: str, head_re: str, what: str) -> str:
+    m = re.search(head_re, src)
+    if not m:
+        raise ExtractError(f"{what} not found")
+    i = src.index("{", m.end() - 1)
+    # a fn signature may contain parentheses/generics before the body: find the body's brace
+    j = _balanced_end(src, i)
+    return src[m.start():j + 1]
+
+
+def _fn(src: str, name: str) -> str:
+    m = re.search(r"(?:pub(?:\([a-z]+\))?\s+)?(?:async\s+)?fn\s+" + name + r"\s*\(", src)
+    if not m:
+        raise ExtractError(f"fn {name} not found")
+    p = _balanced_end(src, m.end() - 1)
+    i = src.index("{", p)
+    j = _balanced_end(src, i)
+    return src[m.start():j + 1]
+
+
+def extract_udp_maps() -> str:
+    """The items of penguin/src/client/mod.rs that decide where a UDP reply goes, as text."""
+    f = REPO / "penguin" / "src" / "client" / "mod.rs"
+    c = REPO / "penguin" / "src" / "config.rs"
+    if not f.exists() or not c.exists():
+        raise ExtractError("penguin/src/client/mod.rs or penguin/src/config.rs missing")
+    src = f.read_text()
+    # only the non-test part
+    mt = re.search(r"#\[cfg\(test\)\]\s*mod\s+tests\s*\{", src)
+    if mt:
+        src = src[:mt.start()]
+    cm = re.search(r"#\[cfg\(not\(test\)\)\]\s*pub const UDP_PRUNE_TIMEOUT:\s*time::Duration\s*=\s*time::Duration::from_secs\((\d+)\);", c.read_text())
+    if not cm:
+        raise ExtractError("config::UDP_PRUNE_TIMEOUT (non-test) not recognised")
+    hr_impl = _item(src, r"impl\s+HandlerResources\s*\{", "impl HandlerResources")
+    add = _fn(hr_impl, "add_udp_client")
+    prune = _fn(hr_impl, "prune_udp_clients")
+    maps_s = _item(src, r"pub struct ClientIdMaps\s*\{", "struct ClientIdMaps")
+    maps_i = _item(src, r"impl\s+ClientIdMaps\s*\{", "impl ClientIdMaps")
+    ent_s = _item(src, r"pub struct ClientIdMapEntry\s*\{", "struct ClientIdMapEntry")
+    ent_i = _item(src, r"impl\s+ClientIdMapEntry\s*\{", "impl ClientIdMapEntry")
+    prune = re.sub(r"^fn\s+prune_udp_clients", "pub fn prune_udp_clients", prune)
+    maps_i = re.sub(r"(\n\s*)async fn send_datagram_reply", r"\1pub async fn send_datagram_reply", maps_i)
+    maps_i = re.sub(r"(\n\s*)fn new\(", r"\1pub fn new(", maps_i)
+    return ("// GENERATED by /verif/lib/vdriver.py from /repo/penguin/src/client/mod.rs and config.rs - the text between the\n"
+            "// markers is the repository's own; only visibility keywords were added and the struct HandlerResources\n"
+            "// was reduced to the one field these methods use.\n"
+            f"pub const UDP_PRUNE_TIMEOUT_SECS: u64 = {cm.group(1)};\n"
+            "pub struct HandlerResources { udp_client_map: Arc<Mutex<ClientIdMaps>> }\n"
+            "impl HandlerResources {\n"
+            "    pub fn verif_new() -> Self { Self { udp_client_map: Arc::new(Mutex::new(ClientIdMaps::new())) } }\n"
+            "    pub fn verif_map(&self) -> &Mutex<ClientIdMaps> { &self.udp_client_map }\n"
+            "// ---- extracted: add_udp_client\n    " + add + "\n// ---- extracted: prune_udp_clients\n    " + prune + "\n}\n"
+            "// ---- extracted: ClientIdMaps\n" + maps_s + "\n" + maps_i + "\n"
+            "// ---- extracted: ClientIdMapEntry\n" + ent_s + "\n" + ent_i + "\n")
 
 
 def extract_backoff_callsite():
@@ -777,7 +868,7 @@ def concrete_playback(prop, kind, profile, harness, pretty, sc: Scratch, builds,
         if kind == "ext":
             repo_copy = root / "repo"
             copy_repo(repo_copy, mode, [], VERIF / "shims", False, VERIF / "harness")
-            make_ext(root / "ext", repo_copy, mode, keep_shims, VERIF / "shims", VERIF / "harness")
+            make_ext(root / "ext", repo_copy, mode, keep_shims, VERIF / "shims", VERIF / "harness", b.get("ext_dir", "ext"))
             ncwd = root / "ext"
             modfile = ncwd / "src" / (b["module_of"](harness) + ".rs")
             npkg = []
@@ -870,7 +961,7 @@ def run_property(pid: str, tier: str, jobs: int, only: str | None, keep: bool, r
             names = sorted({h.name for h in hl})
             if kind == "ext":
                 ext = sc.root / f"ext-{profile}"
-                make_ext(ext, repo_copy, profile, shims, VERIF / "shims", VERIF / "harness")
+                make_ext(ext, repo_copy, profile, shims, VERIF / "shims", VERIF / "harness", spec.get("ext_dir", "ext"))
                 cwd, pkg_args = ext, []
             else:
                 cwd, pkg_args = repo_copy, ["-p", "penguin-mux", "--no-default-features", "--features", MUX_FEATURES]
@@ -886,7 +977,7 @@ def run_property(pid: str, tier: str, jobs: int, only: str | None, keep: bool, r
                 if keep:
                     log(tail[-3000:])
                 break
-            builds[(kind, profile)] = dict(cwd=cwd, pkg_args=pkg_args, module_of=spec.get("module_of", lambda h: spec.get("module", "")),
+            builds[(kind, profile)] = dict(cwd=cwd, pkg_args=pkg_args, ext_dir=spec.get("ext_dir", "ext"), module_of=spec.get("module_of", lambda h: spec.get("module", "")),
                                            native_shims=spec.get("native_shims", ["tokio", "tracing", "tracing-attributes", "parking_lot"] if kind == "mux" else []))
             for h in hl:
                 if h.name not in metas:
